@@ -815,15 +815,17 @@ impl FontInfo {
 
             if !(v[0..4].parse::<u16>().is_ok()
                 && &v[4..5] == "/"
-                && v[5..7]
-                    .parse::<u8>()
-                    .map_err(|_| FontInfoErrorKind::InvalidOpenTypeHeadCreatedDate)?
-                    <= 12
+                && (1..=12).contains(
+                    &v[5..7]
+                        .parse::<u8>()
+                        .map_err(|_| FontInfoErrorKind::InvalidOpenTypeHeadCreatedDate)?,
+                )
                 && &v[7..8] == "/"
-                && v[8..10]
-                    .parse::<u8>()
-                    .map_err(|_| FontInfoErrorKind::InvalidOpenTypeHeadCreatedDate)?
-                    <= 31
+                && (1..=31).contains(
+                    &v[8..10]
+                        .parse::<u8>()
+                        .map_err(|_| FontInfoErrorKind::InvalidOpenTypeHeadCreatedDate)?,
+                )
                 && &v[10..11] == " "
                 && v[11..13]
                     .parse::<u8>()
